@@ -488,7 +488,12 @@ def _copy_walk(path, fmt, seed, run=None):
     import csep
     g = random.Random(seed)
     fore = _call("load_catalog_forecast", path, g.choice([0, 0, 3, 8, 9]), fmt)
-    when = g.choice(["before", "middle", "middle", "after"])
+    # A copy taken IN THE MIDDLE of a pass is not generated: on the unchanged tree a shallow copy shares the live generator with
+    # the original (deepcopy / pickle are refused there), so what either object delivers afterwards is nothing the property
+    # fixes, and a harmless rewrite that keeps the state of a pass in a generator of its own (seeded C13_H2) behaves differently
+    # there without breaking the property (cross-property run). Copies before the first catalog and after a complete pass stay.
+    g.choice(["before", "middle", "middle", "after"])          # keeps the random stream of the other choices
+    when = g.choice(["before", "after"])
     seen = []
     if when == "middle":
         for _ in range(g.randint(1, 4)):
